@@ -1,6 +1,7 @@
 import OW.Proofs.Surm
 import OW.Proofs.Simhyd
 import OW.Proofs.GR4JBudget
+import OW.Proofs.Sacramento
 import OW.Kernels.Coeff
 /-!
 C10 — rainfall-runoff models never create water and keep stores within bounds.
@@ -29,7 +30,7 @@ theorem coeff_bounds (c : ℝ) (hc0 : 0 ≤ c) (hc1 : c ≤ 1) (rain : List ℝ)
     exact List.Forall₂.cons ⟨mul_nonneg hc0 hr0, by nlinarith⟩ (ih (fun x hx => hr x (List.mem_cons_of_mem _ hx)))
 
 /-- for every prefix: cumulative runoff ≤ cumulative rainfall (the model has no store) -/
-theorem coeff_no_water_created (c : ℝ) (hc0 : 0 ≤ c) (hc1 : c ≤ 1) (rain : List ℝ) (hr : ∀ r ∈ rain, 0 ≤ r)
+theorem coeff_no_water_created (c : ℝ) (hc1 : c ≤ 1) (rain : List ℝ) (hr : ∀ r ∈ rain, 0 ≤ r)
     (n : ℕ) : ((Coeff.run c rain).take n).sum ≤ (rain.take n).sum := by
   have h : ∀ l : List ℝ, (∀ r ∈ l, 0 ≤ r) → (l.map (fun r => c * r)).sum ≤ l.sum := by
     intro l hl
@@ -250,5 +251,59 @@ example : RR.GR4J.ParamsOk 350 90 1.7 ∧ RR.GR4J.Inv 350 90 1.7 (GR4J.initState
   have hp : RR.GR4J.ParamsOk 350 90 1.7 := by constructor <;> norm_num
   exact ⟨hp, (RR.GR4J.init_inv 350 90 1.7 hp).1, (RR.GR4J.init_inv 350 90 1.7 hp).2,
     RR.GR4J.init_n1 1.7 (by norm_num)⟩
+
+/-! ## Sacramento
+
+Model of the code as repaired by fixes/sacramento-adimp-ratio.diff (the ADIMP saturation ratio is clamped at 0;
+without the clamp the real code produced NaN and 10²³ mm of runoff — see the evidence).
+Proved: components, the channel stage (runoff, baseflow, channel evaporation non-negative), the normalised unit
+hydrograph. NOT proved (named gap, `sacramento_bounds_partial`): the store bounds and the water budget, which need
+an invariant through the drainage-and-percolation loop (`incBody`: 15 coupled updates repeated `ninc` times, twice
+per day); they are covered by the oracle on the implementation only. Full statements:
+
+  theorem sacramento_invariant : ParamsOk p → Inv p s → (∀ x ∈ xs, 0 ≤ x.1 ∧ 0 ≤ x.2) →
+      Inv p (run p s xs).1 ∧ ∀ o ∈ (run p s xs).2, 0 ≤ o.actualET ∧ 0 ≤ o.imperviousRunoff ∧ 0 ≤ o.surfaceRunoff
+    where Inv: 0 ≤ uztwc ≤ uztwm, 0 ≤ uzfwc ≤ uzfwm, 0 ≤ lztwc ≤ lztwm, 0 ≤ alzfpc ≤ alzfpm, 0 ≤ alzfsc ≤ alzfsm, qq ≥ 0
+  theorem sacramento_no_water_created : … → ∀ n,
+      Σ_{t<n} (runoff + actualET) ≤ Σ_{t<n} rain + (1−pctim−adimp)(uztwc+uzfwc+lztwc+alzfpc+alzfsc)₀ + adimp·adimc₀
+-/
+
+/-- runoff = surfaceRunoff + baseflow on every step of every run (any parameters, inputs, state) -/
+theorem sacramento_components_sum (p : Sacramento.Params ℝ) (s : Sacramento.State ℝ) (xs : List (ℝ × ℝ)) :
+    ∀ o ∈ (Sacramento.run p s xs).2, o.runoff = o.surfaceRunoff + o.baseflow ∧
+      o.actualET = o.e1 + o.e2 + o.e3 + o.e4 + o.e5 := by
+  induction xs generalizing s with
+  | nil => intro o ho; simp [Sacramento.run, scan] at ho
+  | cons x xs ih =>
+    intro o ho
+    simp only [Sacramento.run, scan, List.mem_cons] at ho
+    rcases ho with rfl | ho
+    · exact ⟨RR.Sacramento.step_components p _ s x, rfl⟩
+    · exact ih _ o ho
+
+/-- **Partial (channel stage only).** PET ≥ 0 and sarva ≥ 0: on every step of every run total runoff ≥ 0,
+baseflow ≥ 0 and the channel evaporation e4 ≥ 0, whatever the stores did. Missing for the full
+`sacramento_invariant`: surfaceRunoff ≥ 0 (needs the unit-hydrograph buffer ≥ 0), e1, e2, e3, e5 ≥ 0, imperviousRunoff ≥ 0
+and the store bounds, all of which depend on the drainage-and-percolation loop invariant. -/
+theorem sacramento_bounds_partial (p : Sacramento.Params ℝ) (hsarva : 0 ≤ p.sarva) (s : Sacramento.State ℝ)
+    (xs : List (ℝ × ℝ)) (hx : ∀ x ∈ xs, 0 ≤ x.2) :
+    ∀ o ∈ (Sacramento.run p s xs).2, 0 ≤ o.runoff ∧ 0 ≤ o.baseflow ∧ 0 ≤ o.e4 := by
+  induction xs generalizing s with
+  | nil => intro o ho; simp [Sacramento.run, scan] at ho
+  | cons x xs ih =>
+    intro o ho
+    simp only [Sacramento.run, scan, List.mem_cons] at ho
+    rcases ho with rfl | ho
+    · exact RR.Sacramento.step_channel_nonneg p _ s x (hx x (List.mem_cons_self ..)) hsarva
+    · exact ih _ (fun y hy => hx y (List.mem_cons_of_mem _ hy)) o ho
+
+/-- the five unit-hydrograph proportions are normalised by their sum (the divisor, positive by hypothesis):
+the weights are non-negative and sum to one, so the routing delay neither creates nor loses water -/
+theorem sacramento_uh_normalised (p : Sacramento.Params ℝ) (h1 : 0 ≤ p.uh1) (h2 : 0 ≤ p.uh2) (h3 : 0 ≤ p.uh3)
+    (h4 : 0 ≤ p.uh4) (h5 : 0 ≤ p.uh5) (hs : 0 < p.uh1 + p.uh2 + p.uh3 + p.uh4 + p.uh5) :
+    (Sacramento.makeUnitHydrograph p).sum = 1 ∧ ∀ d ∈ Sacramento.makeUnitHydrograph p, 0 ≤ d :=
+  RR.Sacramento.uh_normalised p h1 h2 h3 h4 h5 hs
+
+example : (0 : ℝ) ≤ 0.8 ∧ (0 : ℝ) < 0.8 + 0.1 + 0.05 + 0.03 + 0.02 := by constructor <;> norm_num
 
 end OW.Props.C10
